@@ -255,14 +255,27 @@ pub fn c10_script(r: &mut Rng, _index: u64, _tier: Tier) -> (CaseCfg, Vec<Step>)
         s.push(Step::Poll { max_wait: 1, cancel_at: None });
         s.push(Step::DropConn);
     }
+    // one case in five: a slow transport takes the client's packets one byte at a time and is busy
+    // for a while in between (the PINGREQ then completes well after the client decided to send it)
+    let policy = if r.chance(1, 5) { IoPolicy { write: Chunk::One, slow_write_us: *r.pick(&[1_000_000u64, 3_000_000, 4_900_000]), ..IoPolicy::default() } } else { IoPolicy::default() };
     s.push(Step::Connect(ConnectSpec {
-        policy: IoPolicy::default(),
+        policy,
         faults: vec![],
         connack: ConnackSpec::Normal { sp: SpMode::Force(r.chance(1, 2) && !s.is_empty()), reason: 0, props },
         broker: BrokerPolicy { acks: AckMode::Immediate, ping, fail_pct: 0, longform_pct: 0 },
         cancel_at: None,
     }));
     let base = if eff == 0 { 10_000_000 } else { eff.min(100_000_000) };
+    // one case in six: the poll that writes the PINGREQ is given up after the first of its two
+    // bytes (transport that pends before every write and takes one byte at a time), the
+    // application comes back a little later
+    if eff > 0 && r.chance(1, 6) {
+        if let Some(Step::Connect(c)) = s.last_mut() {
+            c.policy = IoPolicy { write: Chunk::One, pend_write: Pend::Always, ..IoPolicy::default() };
+        }
+        s.push(Step::Poll { max_wait: interval + 1, cancel_at: Some(r.range(2, 4)) });
+        s.push(Step::Advance(*r.pick(&[1u64, 1_000_000, 3_000_000, 4_000_000])));
+    }
     for i in 0..r.range(4, 10) {
         let wait = match r.below(9) {
             0 => interval.saturating_sub(1),
